@@ -37,6 +37,8 @@ CHECKS = {
          "deterministic simulation with fault injection: event-history oracle over global sequence numbers"),
  "C19": ("exploration", "GET decision model: inbound (405 + Allow + no dispatch for methods with side effects; GET == POST metamorphism) and outbound to a Connect backend (GET only under all four preconditions), with every issued GET re-run at URL limits of exactly its length and +-1, +-2. Closed-world reference model; schedules and faults play no role.",
          "deterministic simulation used as closed-world harness: GET decision reference model with computed URL-length boundaries"),
+ "C06": ("exploration", "Seeded route tables from the template grammar (WithRules and annotations, overlaps, verbs, custom kinds) and request paths full of escapes and perturbations; an independent matcher on the raw path decides dispatch+captures / 404 / 405+Allow and literal-over-wildcard precedence, abstaining where the statement leaves room; registration order is reversed as a metamorphic check. Closed-world reference model; no schedule or fault dependence.",
+         "deterministic simulation used as closed-world harness: independent google.api.http template matcher plus registration-order metamorphism"),
  "C07": ("exploration", "Reference binder and its inverse (written from http.proto / AIP-127) over 24 bound methods: REST requests rendered from seeded messages reach an RPC backend whose decoded message must equal the reference binder's; RPC messages sent to a REST-only backend are re-parsed by the reference router+binder and must come back unchanged; response_body and HttpBody handling; ill-typed parameters => invalid_argument. Closed-world reference model; no schedule or fault dependence.",
          "deterministic simulation used as closed-world harness: independent reference binder/encoder for google.api.http over seeded messages"),
  "C08": ("exploration", "I/O segmentation is the schedule: every scenario is run atomically and under drawn segmentations of deliveries, handler read sizes, handler writes/flushes and scheduling policies; metamorphic equality of handler-visible request bytes and canonical client outcome.",
